@@ -192,15 +192,22 @@ def names_task():
     for rel in ('sub.dir/y.hyeong', 'sub.dir/inner dir/프로그램.hyeong', 'real/z.hyeong', 'real/deep/w.hyeong'):
         with open(os.path.join(d, rel), 'wb') as f:
             f.write(good)
-    os.symlink('x.hyeong', os.path.join(d, 'link.hyeong'))
-    os.symlink('x.txt', os.path.join(d, 'link2.hyeong'))
-    os.symlink('real/deep', os.path.join(d, 'ldir'))
-    os.symlink('nowhere.hyeong', os.path.join(d, 'dangling.hyeong'))
+    links = True
+    try:
+        os.symlink('x.hyeong', os.path.join(d, 'link.hyeong'))
+        os.symlink('x.txt', os.path.join(d, 'link2.hyeong'))
+        os.symlink('real/deep', os.path.join(d, 'ldir'))
+        os.symlink('nowhere.hyeong', os.path.join(d, 'dangling.hyeong'))
+    except OSError:
+        links = False           # a file system without symbolic links: those namings are left out
+    st.add('outcome', 'symlinks-available' if links else 'symlinks-NOT-available')
     path_cases = [('./x.hyeong', 'ok'), ('sub.dir/y.hyeong', 'ok'), ('sub.dir/inner dir/프로그램.hyeong', 'ok'),
                   ('sub.dir/../x.hyeong', 'ok'), ('./sub.dir/./inner dir/../y.hyeong', 'ok'), (os.path.join(d, 'x.hyeong'), 'ok'),
                   (os.path.join(d, 'sub.dir', '..', 'real', 'z.hyeong'), 'ok'), ('link.hyeong', 'ok'), ('link2.hyeong', 'ok'),
                   ('ldir/w.hyeong', 'ok'), ('ldir/../z.hyeong', 'ok'), ('real/deep/../../ldir/../z.hyeong', 'ok'),
                   ('dangling.hyeong', 'error'), ('ldir/../x.hyeong', 'error'), ('sub.dir', 'error'), ('sub.dir/', 'error')]
+    if not links:
+        path_cases = [c for c in path_cases if not any(w in c[0] for w in ('link', 'ldir', 'dangling'))]
     long_cases += path_cases
     cases = long_cases + [('x.hyeong', 'ok'), ('x', 'error'), ('x.txt', 'error'), ('x.HYEONG', 'error'), ('.hyeong', 'error'),
              ('missing.hyeong', 'error'), ('d.hyeong', 'error'), ('nodir/x.hyeong', 'error'), ('한글 이름.hyeong', 'ok'),
